@@ -13,17 +13,17 @@ CLAIMED = {
  "C01": ("differential: ruzstd vs original data / spec executor, 4 drivers, frames from 3 generated sources (reference compressor, reference entropy stage on perturbed parses, spec-directed synthesizer arbitrated by libzstd)", "5 C01"),
  "C03": ("fuzzing: format-aware mutational PBT over valid frames (walker field map) through every entry point, on new and on warm decoders, with reuse check afterwards; a hostile-dictionary stage (dictionaries that parse but lie, used by frames built against the honest dictionary); a format-extremes stage (constructed blocks carrying the most sequences / largest lengths the format can express, under a heap ceiling, also executed by the instrumented binary with overflow checks) + coverage-guided libFuzzer/ASan targets (bytes, arbitrary-decoded frame specs through the synthesizer, hostile dictionaries); a case deadline turns non-termination into a violation", "5 C03, 13.1"),
  "C04": ("model-based stateful PBT: generated op lists on RingBuffer / DecodeBuffer vs VecDeque model under a canary+poison allocator (an inspecting reader notices never-written bytes handed to it) and, twice more, with every buffer flush against an inaccessible page at its end / start (out-of-bounds reads and writes kill the process; the launcher localises the case); thorough adds ASan (libFuzzer targets) and Miri replays of the same op lists", "5 C04"),
- "C05": ("PBT with counting allocator and closed-form bounds over every decode strategy on new and warm decoders; synthesized over-long blocks (matches, 20-bit literals, unreferenced literals) arbitrated by libzstd; arbitrary configured limits around exactly chosen windows (held bytes <= limit + request + one block)", "5 C05"),
+ "C05": ("PBT with counting allocator and closed-form bounds over every decode strategy on new and warm decoders; synthesized over-long blocks (matches, 20-bit literals, unreferenced literals) arbitrated by libzstd; arbitrary configured limits around exactly chosen windows (held bytes <= limit + request + one block); long frames (hundreds of blocks, tens to hundreds of windows of output: peak heap independent of the output length)", "5 C05"),
  "C06": ("stateful PBT: generated driver programs (decode/drain schedules, sinks, source fragmentation) against ground-truth content", "5 C06"),
  "C07": ("differential stateful PBT: reused vs fresh decoder after generated histories (valid, dictionary, truncated, corrupted; completed, abandoned, failed), leak-sensitive probes built by patching synthesized frames, decoded in one go or block by block, optionally with a window limit set between frames", "5 C07"),
- "C09": ("PBT with reference-trained dictionaries (non-default repeat offsets, superseded editions under one id), reference compressor and dictionary-aware synthesizer; histories on one decoder; the spec walker arbitrates offsets beyond dictionary + output", "5 C09"),
+ "C09": ("PBT with reference-trained dictionaries (non-default repeat offsets, superseded editions under one id, content padded to several hundred KiB), reference compressor and dictionary-aware synthesizer; histories on one decoder; the spec walker arbitrates offsets beyond dictionary + output", "5 C09"),
  "C10": ("PBT + exhaustive prefix enumeration: multi-frame lists with faults; every strict prefix of small frames and the complete frame (alone / followed by other bytes) through four entry points on new and used decoders", "5 C10"),
- "C11": ("exhaustive enumeration of header variant x limit class x limit order x history position x 11 front ends with closed-form oracle and allocation observer", "5 C11"),
+ "C11": ("exhaustive enumeration of header variant (window descriptor, content size, both, window descriptor + Dictionary_ID) x limit class x limit order x history position x 11 front ends with closed-form oracle and allocation observer", "5 C11"),
  "C02": ("round-trip PBT: compressor histories (reuse, levels, fragmented sources, aborted compress() calls in between, boundary-seeking and code-histogram-shaping input families) decoded by libzstd and by this crate", "5 C02"),
  "C08": ("PBT with an independent XXH64: drain programs on the decoder, reuse histories on the compressor, libzstd verifies trailers", "5 C08"),
- "C12": ("PBT + exhaustive small family: constructive normalized distributions (incl. relatives of the predefined ones) vs spec decoding table state by state, also when built over another table in the same object; encoder tables/streams via hooks vs spec model (round trip both ways); histograms with many equally frequent beside many rare codes; flat code histograms through the real block compressor with the strict walker applying each table's own limit", "5 C12"),
+ "C12": ("PBT + exhaustive small family: constructive normalized distributions (incl. relatives of the predefined ones) vs spec decoding table state by state, also when built over another table in the same object; encoder tables/streams via hooks vs spec model (round trip both ways); descriptions also in a legal non-canonical serialisation (zero runs cut into pieces); histograms with many equally frequent beside many rare codes; flat code histograms through the real block compressor with the strict walker applying each table's own limit", "5 C12"),
  "C13": ("exhaustive over all 255 alphabet sizes + PBT: Kraft/prefix/canonical checks, description round trip vs spec model and decoder, 1- and 4-stream encodings of every size decoded by the specification and by the crate's section decoder, exhaustive direct weight descriptions", "5 C13"),
- "C15": ("PBT with validity predicate: independent strict frame walker over compressor output + closed-form size bound; the built-in match finder also in other window configurations", "5 C15"),
+ "C15": ("PBT with validity predicate: independent strict frame walker over compressor output (also through drains that take only part of a write) + closed-form size bound; the built-in match finder also in other window configurations", "5 C15"),
  "C16": ("PBT over programs: a scripted Matcher replaying generated valid parses / libzstd parses and a history-keeping Matcher that knows only what is committed to it (level-dependent windows, reuse); libzstd + own decoder + walker confirm", "5 C16"),
  "C17": ("stateful PBT + exhaustive small family: validity predicate over every sequence reported by the built-in matcher across eviction/skip/reset histories", "5 C17"),
  "C18": ("differential PBT across four separately built binaries ({std,no_std} x {hash,no hash}) over a generated corpus, incl. reused compressors / decoders and the hand-written io_nostd routines on their boundaries", "5 C18"),
